@@ -174,6 +174,17 @@ impl IpVote {
     }
 }
 
+#[cfg(feature = "verif-hooks")]
+impl IpVote {
+    /// Verification hook (add-only): the clear-majority threshold, the same expression as in
+    /// `filter_stale_find_most_frequent` (kept next to it because the constant is private). The
+    /// verification harness ties this copy to the real decision by probing `majority` at the
+    /// boundary `second == threshold - 1 / threshold`.
+    pub(crate) fn verif_clear_majority_threshold(max_count: usize) -> usize {
+        ((max_count as f64) * (1.0 - CLEAR_MAJORITY_PERCENTAGE)).round() as usize
+    }
+}
+
 #[cfg(test)]
 mod tests {
     use super::{Duration, IpVote, NodeId, SocketAddrV4, CLEAR_MAJORITY_PERCENTAGE};
